@@ -34,7 +34,7 @@ def h_demelimit(P, n, limit):
             P.oblige("demelimit.keeps_best", lnot(strictly_better(x.fitness, k.fitness, maximize)))
 
 
-def h_levellimit(P, offered, existing, L, distinct=False):
+def h_levellimit(P, offered, existing, L, distinct=False, maybe_nan=False):
     """offered: candidates per parent deme on level 0..; existing: number of demes already on the target level (symbolic activity)."""
     from pyhms.sprout.sprout_filters import LevelLimit
 
@@ -43,6 +43,12 @@ def h_levellimit(P, offered, existing, L, distinct=False):
     allc = {}
     for i, (p, n) in enumerate(zip(parents, offered)):
         allc[p] = mk_inds(P, prob, n, 1, f"c{i}_")
+    if maybe_nan:
+        # bit-precise profile: one candidate may carry a NaN fitness (an objective that failed), which ranks below every number
+        from pyhms.core.individual import Individual
+        from symx.core import isnan as _isnan
+        bad = allc[parents[0]][0]
+        allc[parents[0]][0] = Individual(bad.genome, prob, P.float("maybe_nan_fitness", nn=False))
     flags = [P.bool(f"act{j}") for j in range(existing)]
     children = [mk_deme(f"k{j}", 1, active=flags[j]) for j in range(existing)]
     # the existing demes belong to real parents: the first to a sprouting parent, the others to a parent that offers nothing
@@ -259,6 +265,9 @@ def cases(tier):
             cs.append(dict(name=f"demelimit.n{n}.l{limit}", fn=h_demelimit, params=dict(n=n, limit=limit), weight=n, **R))
     shapes = [([2], 0), ([2], 2), ([1, 2], 1), ([2, 2], 2), ([2, 2], 3)] if tier == "quick" else \
         [([2], 0), ([3], 1), ([2], 2), ([1, 2], 1), ([2, 2], 2), ([2, 2], 3), ([1, 1, 2], 2), ([2, 2, 1], 3)]
+    for L in (1, 2):
+        cs.append(dict(name=f"levellimit.maybe_nan.L{L}", fn=h_levellimit, params=dict(offered=[2, 1], existing=1, L=L, maybe_nan=True),
+                       **dict(R, profile="fp"), weight=6))
     for offered, existing in shapes:
         for L in (1, 2, 3):
             for distinct in (False, True):
